@@ -291,7 +291,12 @@ class ShelfCreator:
         """
         kind, name, parent, versioned = self.deletion[file_id]
         existing_path = self.target_tree.id2path(file_id)
-        if not self.work_tree.has_filename(existing_path):
+        # Only a file that was kept on disk when it was removed from version
+        # control can be taken back as it is; a versioned file that has moved to
+        # this path since is somebody else's.
+        if not self.work_tree.has_filename(
+            existing_path
+        ) or self.work_tree.is_versioned(existing_path):
             existing_path = None
         version = not versioned[1]
         self._shelve_creation(
